@@ -1,8 +1,13 @@
+mod alloc;
 mod util;
+mod c03;
 mod c13;
 mod smoke;
 
 use vcommon::runtime::{install_panic_hook, Args, Recorder};
+
+#[global_allocator]
+static GLOBAL: alloc::Counting = alloc::Counting;
 
 fn main() {
     let args = Args::parse();
@@ -13,6 +18,7 @@ fn main() {
         .spawn(move || {
             let mut rec = Recorder::new(&args);
             match args.prop.as_str() {
+                "C03" => c03::run(&args, &mut rec),
                 "C13" => c13::run(&args, &mut rec),
                 "smoke" => smoke::run(&args, &mut rec),
                 "bt" => { let r = a2lfile::load_from_string("/begin A2ML x", None, false); println!("{:?}", r.is_ok()); }
